@@ -52,6 +52,12 @@ def make_residual(spec, lo=None, hi=None):
     rng = np.random.default_rng([int(pseed), 11])
     A = rng.normal(size=(m, n)) * spec.get("scale", 1.0)
     b = rng.normal(size=m)
+    if kind == "const":
+        # flat objective: every interpolation value identical (zero model gradient and Hessian); "plateau": flat outside a ball
+        return lambda x: b + 0.0 * x[0]
+    if kind == "plateau":
+        c0 = rng.normal(size=n)
+        return lambda x: b + (A @ (x - c0)) * max(0.0, 1.0 - float(np.linalg.norm(x - c0)))
     if kind == "sinlin":
         return lambda x: np.sin(A @ x) - b + 0.1 * (A @ x) ** 2
     if kind == "exp":
